@@ -38,6 +38,7 @@ type SpecEnv struct {
 	bound  map[string]bool
 	inOld  bool
 	qcount *int
+	cbElem types.Type
 }
 
 type specErr struct{ msg string }
@@ -302,6 +303,9 @@ func (env *SpecEnv) eval(e Expr, hint types.Type) Value {
 		if !isInterface(v.T) {
 			sfail("'as' needs an interface value")
 		}
+		if isInterface(t) {
+			return Term{S: v.S, T: t}
+		}
 		return Term{S: sx("un"+tc.dynCtor(t), v.S), T: t}
 	}
 	sfail("unsupported expression %s", exprString(e))
@@ -353,6 +357,15 @@ func (env *SpecEnv) ident(name string, hint types.Type) Value {
 		return env.intLit(new(big.Int).SetInt64(-1<<63), types.Typ[types.Int64])
 	case "MaxInt64":
 		return env.intLit(new(big.Int).SetInt64(1<<63-1), types.Typ[types.Int64])
+	}
+	// the ghost multiset of callback invocations
+	if name == "emitted" && env.fr == nil && env.cbElem != nil {
+		return Term{S: env.ex.emittedGet(env.st, env.cbElem), T: &SetType{Elem: env.cbElem, Multi: true}}
+	}
+	if name == "emitted" && env.fr != nil {
+		if et := callbackElemType(env.fr.fn); et != nil {
+			return Term{S: env.ex.emittedGet(env.st, et), T: &SetType{Elem: et, Multi: true}}
+		}
 	}
 	// iteration ghosts of map range loops: seen (current loop), seen1, seen2, ... (by loop number)
 	if env.fr != nil && strings.HasPrefix(name, "seen") {
@@ -491,6 +504,18 @@ func (env *SpecEnv) selector(x ESel, hint types.Type) Value {
 				return Term{S: sx("select", h, base.S), T: ft}
 			}
 		}
+		// promoted field through embedded structs
+		if obj, path, _ := types.LookupFieldOrMethod(stT, false, env.lookupPkg(stT), x.Name); obj != nil {
+			if _, isVar := obj.(*types.Var); isVar && len(path) > 1 {
+				comp, ft := ex.heapCompName(stT, path[0])
+				cur := Term{S: sx("select", ex.heapGet(env.st, comp, ft), base.S), T: ft}
+				for _, idx := range path[1:] {
+					ci := tc.structInfoOf(cur.T)
+					cur = Term{S: sx(ci.fields[idx].sel, cur.S), T: ci.fields[idx].typ}
+				}
+				return cur
+			}
+		}
 		return env.methodValue(base, x.Name)
 	}
 	if s, ok := bt.Underlying().(*types.Struct); ok {
@@ -500,8 +525,26 @@ func (env *SpecEnv) selector(x ESel, hint types.Type) Value {
 				return Term{S: sx(si.fields[i].sel, base.S), T: si.fields[i].typ}
 			}
 		}
+		// promoted field of an embedded struct
+		if obj, path, _ := types.LookupFieldOrMethod(bt, false, env.lookupPkg(bt), x.Name); obj != nil {
+			if _, isVar := obj.(*types.Var); isVar && len(path) > 1 {
+				cur := base
+				for _, idx := range path {
+					ci := tc.structInfoOf(cur.T)
+					cur = Term{S: sx(ci.fields[idx].sel, cur.S), T: ci.fields[idx].typ}
+				}
+				return cur
+			}
+		}
 	}
 	return env.methodValue(base, x.Name)
+}
+
+func (env *SpecEnv) lookupPkg(t types.Type) *types.Package {
+	if n, ok := types.Unalias(derefType(t)).(*types.Named); ok && n.Obj().Pkg() != nil {
+		return n.Obj().Pkg()
+	}
+	return env.pkg
 }
 
 type boundMethod struct {
@@ -685,5 +728,16 @@ func (env *SpecEnv) setOp(op string, a, b Term, st *SetType) Value {
 		return Term{S: sx("(_ map and)", a.S, sx("(_ map not)", b.S)), T: a.T}
 	}
 	sfail("set operator %s unsupported", op)
+	return nil
+}
+
+// callbackElemType: the argument type of the function's callback parameter (func(T) error).
+func callbackElemType(fn *ssa.Function) types.Type {
+	ps := fn.Signature.Params()
+	for i := 0; i < ps.Len(); i++ {
+		if sig, ok := ps.At(i).Type().Underlying().(*types.Signature); ok && sig.Params().Len() == 1 {
+			return sig.Params().At(0).Type()
+		}
+	}
 	return nil
 }
